@@ -379,7 +379,8 @@ theorem telStep_noBad (opts : Nat) (buf : Str) :
           by_cases h3 : buf.length < 3
           · simp [h3] at hx
           · simp only [h3, if_false] at hx
-            split at hx <;> (cases hx; simp [noBad, Ev.isBad])
+            repeat' split at hx
+            all_goals (cases hx; simp [noBad, Ev.isBad])
         · simp only [hn, if_false] at hx
           by_cases hsb : buf.getD 1 0 = 250
           · simp only [hsb, if_true] at hx
@@ -401,7 +402,7 @@ theorem telStep_noBad (opts : Nat) (buf : Str) :
                     simp at hlt; omega
                   · exact noBad_nil
           · simp only [hsb, if_false] at hx
-            cases hx; exact noBad_nil
+            split at hx <;> (cases hx; simp [noBad, Ev.isBad])
 
 theorem telParse_noBad (fuel opts : Nat) (buf : Str) : noBad (telParse Cfg.fixed fuel opts buf).1 := by
   induction fuel generalizing opts buf with
@@ -424,93 +425,249 @@ theorem frontStep_noBad (isTel : Bool) (f : FrontSt) (op : FrontOp) :
     | (cases hr; simp [noBad, Ev.isBad]; done)
     | (simp at hr; done)
 
-theorem runExits_fixed (n : Nat) (s : Option St) : (runExits Cfg.fixed n s).1 = none ∨ (n = 0 ∧ (runExits Cfg.fixed n s).1 = s) := by
-  induction n generalizing s with
-  | zero => right; exact ⟨rfl, rfl⟩
-  | succ n ih =>
-    left
-    cases s with
-    | none => simp only [runExits, Cfg.fixed, if_true]; rcases ih none with h | ⟨_, h⟩ <;> exact h
-    | some x => simp only [runExits]; rcases ih none with h | ⟨_, h⟩ <;> exact h
-
-theorem runExits_noBad (n : Nat) (s : Option St) : noBad (runExits Cfg.fixed n s).2 := by
-  induction n generalizing s with
-  | zero => exact noBad_nil
-  | succ n ih =>
-    cases s with
-    | none => simp only [runExits, Cfg.fixed, if_true]; exact ih none
-    | some x => simp only [runExits]; exact noBad_cons rfl (ih none)
-
 /-! ### the world -/
 
-def WInv (w : World) : Prop := ∀ s, w.sess = some s → SInv s
+def SlotInv (x : Slot) : Prop := ∀ s, x.sess = some s → SInv s
+def WInv (w : World) : Prop := ∀ x ∈ w.slots, SlotInv x
+
+theorem slotInv_default : SlotInv ({} : Slot) := by intro s hs; simp at hs
+
+theorem getD_inv (sl : List Slot) (h : ∀ x ∈ sl, SlotInv x) (k : Nat) : SlotInv (sl.getD k {}) := by
+  rw [List.getD_eq_getElem?_getD]
+  cases hk : sl[k]? with
+  | none => exact slotInv_default
+  | some x => exact h x (List.mem_of_getElem? hk)
+
+theorem set_inv (sl : List Slot) (h : ∀ x ∈ sl, SlotInv x) (k : Nat) (y : Slot) (hy : SlotInv y) :
+    ∀ x ∈ sl.set k y, SlotInv x := by
+  intro x hx
+  rcases List.mem_or_eq_of_mem_set hx with h1 | h1
+  · exact h x h1
+  · exact h1 ▸ hy
+
+theorem WInv.slot {w : World} (h : WInv w) (k : Nat) : SlotInv (w.slot k) := getD_inv w.slots h k
+
+theorem WInv.setSlot {w : World} (h : WInv w) (k : Nat) (y : Slot) (hy : SlotInv y) : WInv (w.setSlot k y) :=
+  set_inv w.slots h k y hy
+
+theorem slotInv_none (x : Slot) (f g : Nat) (p : Str) : SlotInv { x with sess := none, fstate := f, gen := g, pending := p } := by
+  intro s hs; simp at hs
+
+theorem sinv_fresh (o : Nat) : SInv { opts := o } :=
+  ⟨by simp, by simp, by intro l hl; simp at hl⟩
+
+theorem slotInv_fresh (f g o : Nat) (p : Str) : SlotInv { fstate := f, gen := g, sess := some { opts := o }, pending := p } := by
+  intro s hs; simp at hs; subst hs; exact sinv_fresh o
+
+theorem exitSlot_spec (k : Nat) (x : Slot) : (exitSlot k x).1.sess = none ∧ noBad (exitSlot k x).2 := by
+  unfold exitSlot; cases kindOf k <;> simp [noBad, Ev.isBad]
+
+theorem runExits_safe (ex : List (Nat × Nat)) (sl : List Slot) (h : ∀ x ∈ sl, SlotInv x) :
+    (∀ x ∈ (runExits Cfg.fixed ex sl).1, SlotInv x) ∧ noBad (runExits Cfg.fixed ex sl).2 := by
+  induction ex generalizing sl with
+  | nil => exact ⟨h, noBad_nil⟩
+  | cons e ex ih =>
+    obtain ⟨k, g⟩ := e
+    unfold runExits
+    simp only
+    split
+    · have hsp := exitSlot_spec k (sl.getD k {})
+      have := ih (sl.set k (exitSlot k (sl.getD k {})).1)
+        (set_inv sl h k _ (by intro s hs; rw [hsp.1] at hs; cases hs))
+      exact ⟨this.1, noBad_append hsp.2 this.2⟩
+    · simp only [Cfg.fixed, if_true]; exact ih sl h
+
+theorem doPass_safe (w : World) (h : WInv w) : WInv (doPass Cfg.fixed w).1 ∧ noBad (doPass Cfg.fixed w).2 := by
+  have := runExits_safe w.exits w.slots h
+  exact ⟨this.1, this.2⟩
+
+theorem deliver_safe (w : World) (k : Nat) (bs : Str) (h : WInv w) :
+    WInv (deliver Cfg.fixed w k bs).1 ∧ noBad (deliver Cfg.fixed w k bs).2 := by
+  unfold deliver
+  simp only
+  cases hs : (w.slot k).sess with
+  | none => exact ⟨h, noBad_nil⟩
+  | some s =>
+    have hsafe := runKeys_safe w.nodes s (recvKeys bs) (h.slot k s hs)
+    simp only
+    refine ⟨?_, noBad_cons rfl hsafe.2⟩
+    have : WInv (w.setSlot k { w.slot k with sess := some (recvString Cfg.fixed w.nodes s bs).1 }) :=
+      h.setSlot k _ (by intro s' hs'; simp at hs'; subst hs'; exact hsafe.1)
+    exact this
+
+theorem applyTel_safe (ns : Nodes) (evs : List Ev) : ∀ (so : Option St), (∀ s, so = some s → SInv s) → noBad evs →
+    (∀ s, (applyTel Cfg.fixed ns so evs).1 = some s → SInv s) ∧ noBad (applyTel Cfg.fixed ns so evs).2 := by
+  induction evs with
+  | nil => intro so h _; exact ⟨h, noBad_nil⟩
+  | cons e r ih =>
+    intro so h hb
+    have hr : noBad r := fun x hx => hb x (List.mem_cons_of_mem _ hx)
+    have he : e.isBad = false := hb e List.mem_cons_self
+    cases e with
+    | tel t =>
+      cases t with
+      | str d =>
+        cases so with
+        | none => simpa [applyTel] using ih none h hr
+        | some st =>
+          have hsafe := runKeys_safe ns st (recvKeys d) (h st rfl)
+          have := ih (some (recvString Cfg.fixed ns st d).1) (by intro s hs; simp at hs; subst hs; exact hsafe.1) hr
+          simp only [applyTel]
+          exact ⟨this.1, noBad_append hsafe.2 this.2⟩
+      | setopt o =>
+        simp only [applyTel]
+        apply ih _ _ hr
+        intro s hs
+        cases so with
+        | none => simp at hs
+        | some st =>
+          simp at hs; subst hs
+          have := h st rfl
+          exact ⟨this.cur, this.hidx, this.bf⟩
+      | win a b => simpa [applyTel] using ih so h hr
+      | reply bs =>
+        have := ih so h hr
+        simp only [applyTel]
+        exact ⟨this.1, noBad_cons rfl this.2⟩
+    | _ =>
+      all_goals (
+        have := ih so h hr
+        simp only [applyTel]
+        exact ⟨this.1, noBad_cons he this.2⟩)
+
+theorem noBad_opLine (s : String) : noBad (opLine s) := by simp [opLine, noBad, Ev.isBad]
+theorem noBad_retLine (b : Bool) : noBad (retLine b) := noBad_opLine _
+theorem noBad_beginEvs (s : St) : noBad (beginEvs s) := by
+  unfold beginEvs; split <;> simp [noBad, Ev.isBad]
 
 theorem step_safe (w : World) (op : Op) (h : WInv w) :
     ∀ r, step Cfg.fixed w op = some r → WInv r.1 ∧ noBad r.2 := by
   intro r hr
   cases op with
+  | sel k =>
+    simp only [step] at hr; split at hr
+    · cases hr; exact ⟨h, noBad_opLine _⟩
+    · simp at hr
   | openS o =>
     simp only [step] at hr; split at hr
     · cases hr
-      refine ⟨?_, ?_⟩
-      · intro s hs; simp at hs; subst hs
-        exact ⟨by simp, by simp, by intro l hl; simp at hl⟩
-      · refine noBad_append ?_ (by simp [noBad, retLine, Ev.isBad])
-        split <;> simp [noBad, Ev.isBad]
+      exact ⟨h.setSlot _ _ (slotInv_fresh _ _ _ _), noBad_cons rfl (noBad_append (noBad_beginEvs _) (noBad_retLine _))⟩
     · simp at hr
   | recv bs =>
     simp only [step] at hr; split at hr
     · split at hr
-      · cases hr; exact ⟨h, by simp [noBad, retLine, Ev.isBad]⟩
-      · next s hs =>
-        cases hr
-        have hsafe := runKeys_safe w.nodes s (recvKeys bs) (h s hs)
-        refine ⟨?_, noBad_append hsafe.2 (by simp [noBad, retLine, Ev.isBad])⟩
-        intro s' hs'; simp at hs'; subst hs'; exact hsafe.1
+      · cases hr; exact ⟨h, noBad_retLine _⟩
+      · cases hr
+        have := deliver_safe w w.cur bs h
+        exact ⟨this.1, noBad_append this.2 (noBad_retLine _)⟩
     · simp at hr
   | pass =>
     simp only [step] at hr; cases hr
-    refine ⟨?_, noBad_append (runExits_noBad _ _) (by simp [noBad, Ev.isBad])⟩
-    intro s hs; simp only at hs
-    rcases runExits_fixed w.exits w.sess with h1 | ⟨_, h1⟩
-    · rw [h1] at hs; simp at hs
-    · rw [h1] at hs; exact h s hs
+    have := doPass_safe w h
+    exact ⟨this.1, noBad_append this.2 (noBad_opLine _)⟩
+  | teardown =>
+    simp only [step] at hr; cases hr
+    refine ⟨?_, noBad_append ?_ (noBad_opLine _)⟩
+    · intro x hx
+      simp [nSlots] at hx
+      rw [hx]; exact slotInv_default
+    · simp [Cfg.fixed, noBad]
   | opt n =>
     simp only [step] at hr; split at hr
     · split at hr
-      · cases hr; exact ⟨h, by simp [noBad, Ev.isBad]⟩
+      · cases hr; exact ⟨h, noBad_opLine _⟩
       · next s hs =>
         cases hr
-        refine ⟨?_, by simp [noBad, Ev.isBad]⟩
+        refine ⟨h.setSlot _ _ ?_, noBad_opLine _⟩
         intro s' hs'; simp at hs'; subst hs'
-        have := h s hs
+        have := h.slot w.cur s hs
         exact ⟨this.cur, this.hidx, this.bf⟩
     · simp at hr
   | winsz a b =>
     simp only [step] at hr; split at hr
-    · cases hr; exact ⟨h, by simp [noBad, retLine, Ev.isBad]⟩
+    · cases hr; exact ⟨h, noBad_retLine _⟩
     · simp at hr
   | close =>
     simp only [step] at hr; split at hr
-    · cases hr; exact ⟨by intro s hs; simp at hs, by simp [noBad, retLine, Ev.isBad]⟩
+    · cases hr; exact ⟨h.setSlot _ _ (by intro s hs; simp at hs), noBad_retLine _⟩
+    · simp at hr
+  | xconn k =>
+    simp only [step] at hr; split at hr
+    · cases hr
+      refine ⟨h.setSlot _ _ (slotInv_fresh _ _ _ _), noBad_cons rfl (noBad_append (noBad_append ?_ (noBad_beginEvs _)) (noBad_opLine _))⟩
+      split <;> simp [noBad, Ev.isBad]
+    · simp at hr
+  | xrecv k bs =>
+    simp only [step] at hr; split at hr
+    · split at hr
+      · split at hr
+        · cases hr; exact ⟨h, noBad_opLine _⟩
+        · cases hr
+          have := deliver_safe w 6 ((w.slot k).pending ++ bs) h
+          exact ⟨this.1, noBad_append this.2 (noBad_opLine _)⟩
+      · cases hr
+        have hf := telParse_noBad (((w.slot k).pending ++ bs).length + 1)
+          (match (w.slot k).sess with | some s => s.opts | none => 0) ((w.slot k).pending ++ bs)
+        have ha := applyTel_safe w.nodes _ (w.slot k).sess (h.slot k) hf
+        refine ⟨?_, noBad_cons rfl (noBad_append ha.2 (noBad_opLine _))⟩
+        apply WInv.setSlot h
+        intro s hs; exact ha.1 s hs
+    · simp at hr
+  | xdisc k =>
+    simp only [step] at hr; split at hr
+    · cases hr; exact ⟨h.setSlot _ _ (by intro s hs; simp at hs), noBad_opLine _⟩
+    · simp at hr
+  | sstart =>
+    simp only [step] at hr; split at hr
+    · cases hr
+      have := doPass_safe _ (h.setSlot 7 { w.slot 7 with fstate := 1, gen := (w.slot 7).gen + 1, sess := some { opts := 1 } }
+        (by intro s hs; simp at hs; subst hs; exact sinv_fresh 1))
+      exact ⟨this.1, noBad_cons rfl (noBad_append (noBad_append (noBad_beginEvs _) this.2) (noBad_retLine _))⟩
+    · simp at hr
+  | srecv bs =>
+    simp only [step] at hr; split at hr
+    · cases hr
+      have h1 : WInv (if bs = [] then (w, ([] : List Ev))
+          else if (w.slot 7).fstate = 1 then deliver Cfg.fixed w 7 bs
+          else (w.setSlot 7 { w.slot 7 with fstate := 1, gen := (w.slot 7).gen + 1, sess := some { opts := 1 } },
+                .slot 7 :: beginEvs { opts := 1 })).1 ∧
+          noBad (if bs = [] then (w, ([] : List Ev))
+          else if (w.slot 7).fstate = 1 then deliver Cfg.fixed w 7 bs
+          else (w.setSlot 7 { w.slot 7 with fstate := 1, gen := (w.slot 7).gen + 1, sess := some { opts := 1 } },
+                .slot 7 :: beginEvs { opts := 1 })).2 := by
+        split
+        · exact ⟨h, noBad_nil⟩
+        · split
+          · exact deliver_safe w 7 bs h
+          · exact ⟨h.setSlot 7 _ (by intro s hs; simp at hs; subst hs; exact sinv_fresh 1), noBad_cons rfl (noBad_beginEvs _)⟩
+      have h2 := doPass_safe _ h1.1
+      exact ⟨h2.1, noBad_append (noBad_append h1.2 h2.2) (noBad_opLine _)⟩
+    · simp at hr
+  | sstop =>
+    simp only [step] at hr; split at hr
+    · cases hr
+      have := doPass_safe _ (h.setSlot 7 { w.slot 7 with fstate := 3, sess := none } (by intro s hs; simp at hs))
+      exact ⟨this.1, noBad_append this.2 (noBad_opLine _)⟩
     · simp at hr
   | mkdir =>
     simp only [step] at hr; split at hr
-    · cases hr; exact ⟨h, by simp [noBad, Ev.isBad]⟩
+    · cases hr; exact ⟨h, noBad_opLine _⟩
     · simp at hr
   | mkfunc =>
     simp only [step] at hr; split at hr
-    · cases hr; exact ⟨h, by simp [noBad, Ev.isBad]⟩
+    · cases hr; exact ⟨h, noBad_opLine _⟩
     · simp at hr
   | mount p c name =>
     simp only [step] at hr; repeat' split at hr
-    all_goals first | (cases hr; exact ⟨h, by simp [noBad, retLine, Ev.isBad]⟩) | simp at hr
+    all_goals first | (cases hr; exact ⟨h, noBad_retLine _⟩) | simp at hr
   | umount p name =>
     simp only [step] at hr; repeat' split at hr
-    all_goals first | (cases hr; exact ⟨h, by simp [noBad, retLine, Ev.isBad]⟩) | simp at hr
+    all_goals first | (cases hr; exact ⟨h, noBad_retLine _⟩) | simp at hr
   | rmnode i =>
     simp only [step] at hr; repeat' split at hr
-    all_goals first | (cases hr; exact ⟨h, by simp [noBad, retLine, Ev.isBad]⟩) | simp at hr
+    all_goals first | (cases hr; exact ⟨h, noBad_retLine _⟩) | simp at hr
+  | split bs =>
+    simp only [step] at hr; cases hr; exact ⟨h, by simp [noBad, Ev.isBad]⟩
   | front isTel f =>
     simp only [step] at hr
     split at hr
@@ -531,5 +688,8 @@ theorem run_safe (w : World) (ops : List Op) (h : WInv w) : noBad (run Cfg.fixed
     | some r =>
       have := step_safe w op h r hs
       exact noBad_append this.2 (ih r.1 this.1)
+
+theorem winv_init : WInv {} := by
+  intro x hx; simp [nSlots] at hx; rw [hx]; exact slotInv_default
 
 end Tbox.C13
